@@ -38,6 +38,8 @@ type c06Event struct {
 	ret   int64
 	flags string
 	raw   string
+	ord   int // for write: its ordinal among the write system calls of its thread (what strace's when= counts)
+	pid   string
 }
 
 var c06LineRe = regexp.MustCompile(`^(\d+)\s+(\w+)\((.*)\)\s+=\s+(-?\d+)(.*)$`)
@@ -53,6 +55,7 @@ func c06Parse(path string) ([]*c06Event, error) {
 	}
 	defer f.Close()
 	var evs []*c06Event
+	nWrites := map[string]int{}
 	pending := map[string]string{}
 	sc := bufio.NewScanner(f)
 	sc.Buffer(make([]byte, 1<<20), 1<<24)
@@ -72,7 +75,11 @@ func c06Parse(path string) ([]*c06Event, error) {
 		if m == nil {
 			continue
 		}
-		ev := &c06Event{name: m[2], raw: line, fd: -1}
+		ev := &c06Event{name: m[2], raw: line, fd: -1, pid: m[1]}
+		if ev.name == "write" {
+			nWrites[ev.pid]++
+			ev.ord = nWrites[ev.pid]
+		}
 		ev.ret, _ = strconv.ParseInt(m[4], 10, 64)
 		args := m[3]
 		strs := c06StrRe.FindAllStringSubmatch(args, -1)
@@ -764,21 +771,29 @@ func runC06(s *spec, tier string, seed uint64, scratch string) int {
 		os.RemoveAll(root)
 		// every third workload is run again with the disk filling up at a seeded write
 		if i%3 == 0 {
-			writesBefore, writesAfter, started := 0, 0, false
+			var after, stateWrites []int // ordinals of the writes after the start marker / of those saving the state file
+			started := false
+			mainThread := ""
 			for _, ev := range evs {
 				if ev.name == "marker" && ev.path == "start" {
 					started = true
+					mainThread = ev.pid
 				}
-				if ev.name == "write" || ev.name == "pwrite64" {
-					if started {
-						writesAfter++
-					} else {
-						writesBefore++
+				if ev.name == "write" && started && ev.pid == mainThread {
+					after = append(after, ev.ord)
+					if strings.Contains(ev.raw, "state.json") {
+						stateWrites = append(stateWrites, ev.ord)
 					}
 				}
 			}
+			writesAfter := len(after)
 			if writesAfter > 0 {
-				k := writesBefore + 1 + int((seed*31+uint64(i)*17)%uint64(writesAfter))
+				k := after[int((seed*31+uint64(i)*17)%uint64(writesAfter))]
+				if len(stateWrites) > 0 && st.faults["enospc-during-state-checkpoint"]*2 <= st.faults["enospc-injected-traces"] {
+					// every other time the disk fills up while the state file is being saved
+					k = stateWrites[int((seed*13+uint64(i))%uint64(len(stateWrites)))]
+					st.faults["enospc-during-state-checkpoint"]++
+				}
 				evs2, root2 := c06Trace(bin, scratch, seed, i, nops, k)
 				found2 := c06Explore(evs2, root2, seed, i, nops, st, nil, limit)
 				for _, f := range found2 {
